@@ -199,6 +199,8 @@ ASSUMPTIONS = [
     'exception classes are not modelled: every exception of the real code corresponds to the model answering none',
 ]
 TRUSTED = ['numericalunits (the generated table is measured from the installed package on every run)', 'numpy broadcasting',
+           'the size guard of the model driver (lean/Drivers/C09.lean: a request whose exact value would need > 2*10^5 bits is '
+           'answered err:size and not compared; every other request is evaluated by the proved numAlg)',
            'ast.literal_eval / float() on the modelled numerals', 'fractions.Fraction oracle in search()']
 
 U = 2.0 ** -53
@@ -704,6 +706,8 @@ def _cfg_str(cfg):
 
 def _cmp_val(impl, out, tol_of):
     """impl: float or 'err'; out: driver reply. -> message or None"""
+    if out == 'err:size':
+        return None         # the driver's size guard: the exact value is too large to write down, nothing to compare
     merr = out.startswith('err:')
     if impl == 'err' or merr:
         if (impl == 'err') != merr:
@@ -857,6 +861,8 @@ def _corr_lean_render(ctx, rng, uc, cfg, n):
     outs = ctx.driver.ask_many(lines)
     for (tree, v, e), out, line in zip(metas, outs, lines):
         parts = [x.strip() for x in out.split('|')]
+        if out == 'err:size':
+            continue
         if len(parts) != 3:
             ctx.disagree('lean-render', f'driver reply {out[:80]!r} to {line[:80]!r}', {'op': 'lean-render', 'line': line})
             continue
@@ -918,6 +924,8 @@ def _corr_convert(ctx, rng, uc, cfg, n):
         ctx.stats.case(op + '_in_units', (_cfg_str(cfg), s, tuple(xs)),
                        sample={'cfg': _cfg_str(cfg), 'op': op, 'units': s, 'value': xs, 'shape': list(shape)})
         bad = None
+        if out == 'err:size':
+            continue
         if impl in ('err', 'shape') or out.startswith('err:'):
             if not (impl == 'err' and out.startswith('err:')):
                 bad = f'implementation {impl}, model {out}'
